@@ -2,7 +2,7 @@
 (* C19 scenario space: (own listing, peer advertisement) for the helper, (set, set) for the transfers. *)
 EXTENDS Versions
 VARIABLES c, emitted
-GInit == /\ emitted = FALSE /\ mine = <<0>> /\ theirs = Adv({0}) /\ cache = NoVer /\ last = NoVer /\ n = 0   \* (the base module's variables are unused here)
+GInit == /\ emitted = FALSE /\ mine = [cur |-> <<0>>, cfg |-> <<0>>] /\ theirs = <<>> /\ cache = <<>> /\ last = [v |-> NoVer, want |-> NoVer] /\ n = 0   \* (the base module's variables are unused here)
          /\ \/ \E S \in SUBSET Universe \ {{}} : \E m \in Orders(S), t \in Adverts :
                  c = [kind |-> "helper", mine |-> m, theirs |-> t, a |-> {}, b |-> {}, rep |-> 3, expect |-> Negotiate(m, t)]
             \/ \E a, b \in SUBSET {0, 1} \ {{}} : \E rep \in 1..3 :
